@@ -625,6 +625,55 @@ def check_stage_files_contiguous(ctx, m) -> None:
                construct="_dump_components: for <stage> in range(<highest>+1)")
 
 
+def check_section_prefix(ctx, m) -> None:
+    """The writers name an environment section '<PREFIX>%s' % <name>.upper(); the reader takes the prefix off again.  The only
+    inverse of 'prepend P' is 'drop the first len(P) characters' (a slice from len(P), or removeprefix): a substitution or a
+    replace() removes every later occurrence of the prefix text as well ('conda-env-py3' -> 'conda-py3')."""
+    RID = "C19.R13-section-prefix-is-sliced-off"
+    prefixes = set()
+    for q, f in m.functions.items():
+        if not q.startswith("Dosini._dump"):
+            continue
+        for b in ast.walk(f):
+            if isinstance(b, ast.BinOp) and isinstance(b.op, ast.Mod) and isinstance(b.left, ast.Constant) and isinstance(b.left.value, str) \
+                    and b.left.value.endswith("%s") and b.left.value[:-2].endswith("-") and "%" not in b.left.value[:-2]:
+                prefixes.add(b.left.value[:-2])
+    ctx.floor(RID, len(prefixes), 1, "section-name prefixes printed by the writers ('ENV-%s')")
+    n = 0
+    for q, f in sorted(m.functions.items()):
+        if not q.startswith("Dosini.") or q.startswith("Dosini._dump"):
+            continue
+        # names tested with <name>[.upper()].startswith(<prefix>)
+        tested = {}
+        for c in ast.walk(f):
+            if isinstance(c, ast.Call) and last_attr(c) == "startswith" and c.args and isinstance(c.args[0], ast.Constant) and c.args[0].value in prefixes:
+                recv = c.func.value
+                while isinstance(recv, ast.Call) and isinstance(recv.func, ast.Attribute) and recv.func.attr in ("upper", "lower", "strip"):
+                    recv = recv.func.value
+                if isinstance(recv, ast.Name):
+                    tested[recv.id] = c.args[0].value
+        if not tested:
+            continue
+        ctx.analysed(f)
+        for a in source.walk_own(f):
+            if isinstance(a, ast.Assign) and len(a.targets) == 1 and isinstance(a.targets[0], ast.Name) and a.targets[0].id in tested \
+                    and a.targets[0].id in source.names_in(a.value):
+                nm, pref = a.targets[0].id, tested[a.targets[0].id]
+                v = a.value
+                sliced = isinstance(v, ast.Subscript) and isinstance(v.value, ast.Name) and v.value.id == nm and isinstance(v.slice, ast.Slice) \
+                    and v.slice.upper is None and v.slice.step is None and (
+                        (isinstance(v.slice.lower, ast.Constant) and v.slice.lower.value == len(pref))
+                        or (isinstance(v.slice.lower, ast.Call) and call_name(v.slice.lower) == "len" and v.slice.lower.args
+                            and isinstance(v.slice.lower.args[0], ast.Constant) and v.slice.lower.args[0].value == pref))
+                n += 1
+                ctx.ob(RID, a, sliced,
+                       "the reader drops exactly the %d characters of the prefix %r" % (len(pref), pref) if sliced else
+                       "the reader takes the prefix %r off with %s: anything but a slice from %d also changes names that contain the prefix text "
+                       "further on (written [ENV-CONDA-ENV-PY3], read back as 'conda-py3'; components that name the environment then refer to "
+                       "an unknown one)" % (pref, short(v, 60), len(pref)), construct="%s: <name> = <name>[len(%r):]" % (f.name, pref))
+    ctx.floor(RID, n, 1, "assignments of the reader that take a section-name prefix off")
+
+
 def check_defaults_only_for_the_missing(ctx, m) -> None:
     from vlib import escape
     RID = "C19.R12-default-only-for-what-is-missing"
@@ -812,6 +861,8 @@ def run(ctx) -> None:
              "their value is not None: str(None) comes back as the string 'None'")
     ctx.rule("C19.R11-one-stage-file-per-index", "the reader requires the stage files 0..N-1 to be all present, so the writer's loop over the "
              "stages runs over range(<highest stage>+1), not only over the stages that have components")
+    ctx.rule("C19.R13-section-prefix-is-sliced-off", "the prefix the writers put in front of an environment's name ('ENV-%s') is taken off by the reader with a "
+             "slice from len(prefix) on the name it tested with startswith(prefix): no substitution, replace or strip")
     ctx.rule("C19.R12-default-only-for-what-is-missing", "in the Dosini writer and reader an except handler that binds a default for a name does so only "
              "when the look-up of THAT name failed: no statement that can raise follows the name's look-up inside the same try body "
              "(otherwise a value that is present in the description is dropped because another one is absent)")
@@ -834,6 +885,7 @@ def run(ctx) -> None:
     check_missing_not_none(ctx, m)
     check_stage_files_contiguous(ctx, m)
     check_defaults_only_for_the_missing(ctx, m)
+    check_section_prefix(ctx, m)
     tmap = {k: v for k, v in translate.items() if v is not None}
 
     wt = extract_writer_table(ctx, m)
